@@ -1,5 +1,6 @@
 import Driver.Util
 import AslModel.Model.Split
+import AslModel.Model.PrefixCarry
 /-! Driver modes of C16 (all byte strings hex, "-" = empty).
 
 parameter spec (first word of every request): `<dividehex>/<hasattrs 0|1>/<attrhex>/<leadin hex>[+<leadin hex>]/<n|z|s>`
@@ -10,6 +11,14 @@ parameter spec (first word of every request): `<dividehex>/<hasattrs 0|1>/<attrh
 * `c16pair`  : `<pspec> <linehex> <linehex'>`        → `eq=<0|1> blank=<0|1> blank2=<0|1>`
    (fields of both lines equal up to letter case of op/attr; whether the lines are blank)
 * `c16read`  : `<texthex>`                           → `n=<k> lines=<hex>:<physical count>,..|.`   (model of ReadLnCont over a whole file)
+* `c16px`    : `<pspec> <kind plain|c6x|op|rpt|altd> <linehex> [<linehex'>]`
+                                                     → `px=<0|1> ok=<0|1> pre=<hex>,..|. lab= op= attr= n= args=` [` eq=<0|1>`]
+   (SplitLine, NLS_UpString(OpPart), then the code generator's own split of a prefix-style statement; `px` = the statement
+   is a prefix statement of that kind; with a second line: the re-split statements are equal up to letter case of the attribute)
+* `c16def`   : `<linehex>`                           → `def=<0|1> cmd=<hex> name=<hex> val=<hex>`   (model of Preprocess)
+* `c16carry` : `<stmt> <stmt> ..` with `e` | `d:<W|LW|IB|IW>[+<..>]` | `j:<cc 0..7|->:<addr hex>`
+                                                     → `model=<hex|err> spec=<hex> ok=<0|1> eq=<0|1>`
+   (Z380 DDIR hand-over: model of MakeCode_Z80/DecodeDDIR/DecodeJP over the lines vs. the SPEC's code of the statements)
 * `c16spec`  : `<pspec> <label> <colon 0|1> <gap1> <op> <attr|*> <gap2> <comment|*> (<pre>:<text>:<post>)*`
                                                      → `line=<hex> thm=<0|1>`   (SPEC `render`; `thm` = model split of it = SPEC fields)
 -/
@@ -66,6 +75,83 @@ def handleRead (line : String) : String :=
       s!"n={ls.length} lines={body}"
     | none => "bad-request"
   | _ => "bad-request"
+
+def parseKind (s : String) : Option PrefixKind :=
+  if s = "plain" then some .plain else if s = "c6x" then some .c6x else if s = "op" then some .op7720
+  else if s = "rpt" then some .rpt else if s = "altd" then some .altd else none
+
+def showPF (x : PFields) : String :=
+  let pre := if x.pre.isEmpty then "." else ",".intercalate (x.pre.map hexC)
+  let args := if x.f.args.isEmpty then "." else ",".intercalate (x.f.args.map hexC)
+  s!"pre={pre} lab={hexC x.f.lab} op={hexC x.f.op} attr={hexC x.f.attr} n={x.f.args.length} args={args}"
+
+def handlePx (line : String) : String :=
+  match words line with
+  | ps :: ks :: lh :: more =>
+    match parseParams ps, parseKind ks, unhexC lh with
+    | some p, some k, some l =>
+      let f := split p l
+      let px := isPrefixStmt k (upStr f.op)
+      let r := resplit k f
+      let base :=
+        match r with
+        | some x => s!"px={b01 px} ok=1 {showPF x}"
+        | none => s!"px={b01 px} ok=0"
+      match more with
+      | [lh2] =>
+        match unhexC lh2 with
+        | some l2 =>
+          let r2 := resplit k (split p l2)
+          let eq := match r, r2 with
+            | some a, some b => decide (a.norm = b.norm)
+            | _, _ => false
+          s!"{base} eq={b01 eq}"
+        | none => "bad-request"
+      | _ => base
+    | _, _, _ => "bad-request"
+  | _ => "bad-request"
+
+def handleDef (line : String) : String :=
+  match words line with
+  | [lh] =>
+    match unhexC lh with
+    | some l =>
+      match preprocess l with
+      | some (c, n, v) => s!"def=1 cmd={hexC c} name={hexC n} val={hexC v}"
+      | none => "def=0"
+    | none => "bad-request"
+  | _ => "bad-request"
+
+open AslModel.PrefixSpec in
+def parseMode (s : String) : Option Mode :=
+  if s = "W" then some .W else if s = "LW" then some .LW else if s = "IB" then some .IB
+  else if s = "IW" then some .IW else none
+
+def hexNat (s : String) : Option Nat :=
+  s.toList.foldl (fun acc c => match acc, hexDigitVal c with
+    | some a, some d => some (16 * a + d)
+    | _, _ => none) (some 0)
+
+open AslModel.PrefixSpec in
+def parseStmt (s : String) : Option Stmt :=
+  match s.splitOn ":" with
+  | ["e"] => some .empty
+  | ["d", ms] => ((ms.splitOn "+").mapM parseMode).map Stmt.ddir
+  | ["j", c, a] =>
+    match hexNat a with
+    | some addr => if c = "-" then some (.jp none addr) else (c.toNat?).map (fun cc => Stmt.jp (some cc) addr)
+    | none => none
+  | _ => none
+
+def handleCarry (line : String) : String :=
+  match (words line).mapM parseStmt with
+  | some prog =>
+    let m := AslModel.PrefixCarry.run prog
+    let sp := AslModel.PrefixSpec.code prog
+    let ok := prog.all AslModel.PrefixSpec.Stmt.ok
+    let ms := match m with | some c => hex c | none => "err"
+    s!"model={ms} spec={hex sp} ok={b01 ok} eq={b01 (decide (m = some sp))}"
+  | none => "bad-request"
 
 def parseArg (s : String) : Option Arg :=
   match (s.splitOn ":").mapM unhexC with
